@@ -15,8 +15,8 @@ type TypeSet struct {
 	// reflect value); only meaningful when Top is set
 	TopNonNil bool
 	MayNil    bool // the nil interface value may flow here
-	Types  []types.Type
-	Why    []string // provenance notes for reports
+	Types     []types.Type
+	Why       []string // provenance notes for reports
 }
 
 func (t *TypeSet) add(ty types.Type) bool {
